@@ -300,6 +300,8 @@ def main():
         muts = [m for m in muts if re.search(only, "%s:%d:%s" % (m["file"], m["line"], m["kind"]))]
     if "--shuffle" in args:
         random.Random(int(opt("--shuffle"))).shuffle(muts)
+    if "--skip" in args:
+        muts = muts[int(opt("--skip")):]
     if "--list" in args:
         for m in muts:
             print("%s %s:%d %s | %s" % (m["id"], m["file"], m["line"], m["kind"], m["mut"].strip()[:110]))
